@@ -169,6 +169,170 @@ theorem clearGraph_clears_inputs (fuel : Nat) (h : Heap) (t f : Nat) (hcr : (h.t
       · exact ihw _ hm'
   exact hfold _ _ hv
 
+/-! ## the whole upstream graph -/
+
+/-- `u` is upstream of `t` in the heap `h0`: reachable through creators and their variables
+(through constants too: `clear_graph` does not stop at constants) -/
+inductive Up (h0 : Heap) : Nat → Nat → Prop
+  | refl (t : Nat) : Up h0 t t
+  | step {t f v u : Nat} : (h0.t t).creator = some f → v ∈ (h0.op f).vars → Up h0 v u → Up h0 t u
+
+theorem Up.rank_le {h0 : Heap} (rank : Nat → Nat)
+    (hdag : ∀ t f v, (h0.t t).creator = some f → v ∈ (h0.op f).vars → rank v < rank t)
+    {t u : Nat} (hu : Up h0 t u) : rank u ≤ rank t := by
+  induction hu with
+  | refl t => exact Nat.le_refl _
+  | step hc hv _ ih => exact Nat.le_trans ih (Nat.le_of_lt (hdag _ _ _ hc hv))
+
+theorem Up.trans {h0 : Heap} {a b c : Nat} (h1 : Up h0 a b) (h2 : Up h0 b c) : Up h0 a c := by
+  induction h1 with
+  | refl t => exact h2
+  | step hc hv _ ih => exact Up.step hc hv (ih h2)
+
+/-- invariant of the recursion relative to the heap `h0` it started from: graph fields only shrank,
+and every tensor whose creator has been dropped — except those in `S`, whose call is still in
+progress — has its entire upstream released already -/
+def InvS (h0 : Heap) (S : List Nat) (h : Heap) : Prop :=
+  Shrinks h0 h ∧ ∀ w, w ∉ S → (h.t w).creator ≠ (h0.t w).creator → ∀ u, Up h0 w u → Cleared h u
+
+theorem invS_step {h0 : Heap} {S : List Nat} {h h' : Heap} (hi : InvS h0 S h) (hs : Shrinks h h')
+    (hcr : ∀ w, w ∉ S → (h'.t w).creator = (h.t w).creator) : InvS h0 S h' := by
+  refine ⟨hi.1.trans hs, fun w hw hne u hu => ?_⟩
+  rw [hcr w hw] at hne
+  exact hs.cleared (hi.2 w hw hne u hu)
+
+/-- **clearGraph_clears_upstream** (main lemma).  With enough fuel for the depth of the graph,
+`clear_graph(t)` releases *every* tensor upstream of `t` — on any DAG, whatever the sharing
+(diamonds, repeated operands) and the order of visits — and re-establishes the invariant. -/
+theorem clearGraph_upstream_aux (h0 : Heap) (rank : Nat → Nat)
+    (hdag : ∀ t f v, (h0.t t).creator = some f → v ∈ (h0.op f).vars → rank v < rank t) :
+    ∀ (fuel : Nat) (h : Heap) (t : Nat) (S : List Nat), rank t < fuel → InvS h0 S h →
+      (∀ u, Up h0 t u → u ∉ S) →
+      InvS h0 S (clearGraph fuel h t) ∧ ∀ u, Up h0 t u → Cleared (clearGraph fuel h t) u := by
+  intro fuel
+  induction fuel with
+  | zero => intro h t S hlt; omega
+  | succ fuel ih =>
+    intro h t S hlt hinv hS
+    unfold clearGraph
+    simp only
+    -- the pull changes neither creators, consumers nor op records
+    have hpull : ∀ u, ((if ((h.t t).base.isSome = true) then (gradProp h.fuel h t).1 else h).t u).creator = (h.t u).creator ∧
+        ((if ((h.t t).base.isSome = true) then (gradProp h.fuel h t).1 else h).t u).ops = (h.t u).ops := by
+      intro u
+      split
+      · unfold gradProp
+        exact (gradPropObj_graph_fields h.fuel h t).1 u
+      · exact ⟨rfl, rfl⟩
+    have hpullop : ∀ f, (if ((h.t t).base.isSome = true) then (gradProp h.fuel h t).1 else h).op f = h.op f := by
+      intro f
+      split
+      · unfold gradProp
+        exact (gradPropObj_graph_fields h.fuel h t).2 f
+      · rfl
+    generalize (if ((h.t t).base.isSome = true) then (gradProp h.fuel h t).1 else h) = h1 at hpull hpullop ⊢
+    have hs1 : Shrinks h h1 := ⟨fun u => Or.inl (hpull u).1, fun u => Or.inl (hpull u).2, hpullop⟩
+    have hinv1 : InvS h0 S h1 := invS_step hinv hs1 (fun w _ => (hpull w).1)
+    -- clearing the consumers and view children of `t`
+    have hs2 : Shrinks h1 (h1.modT t fun x => { x with vchildren := [], ops := [] }) := by
+      refine ⟨fun u => ?_, fun u => ?_, fun f => rfl⟩
+      · rw [t_modT_field _ _ _ _ (·.creator) (by intro x; rfl)]; exact Or.inl rfl
+      · by_cases hu : u = t
+        · subst hu; right; simp
+        · rw [t_modT_ne _ _ _ _ hu]; exact Or.inl rfl
+    have hinv2 : InvS h0 S (h1.modT t fun x => { x with vchildren := [], ops := [] }) :=
+      invS_step hinv1 hs2 (fun w _ => t_modT_field _ _ _ _ (·.creator) (by intro x; rfl))
+    have htS : t ∉ S := hS t (Up.refl t)
+    split
+    · -- `t` has no creator (any more)
+      rename_i hnone
+      refine ⟨hinv2, fun u hu => ?_⟩
+      by_cases h0c : (h0.t t).creator = none
+      · -- never had one: nothing is upstream but `t` itself
+        cases hu with
+        | refl => exact ⟨by simpa using hnone, by simp⟩
+        | step hc _ _ => rw [h0c] at hc; cases hc
+      · -- its creator was dropped earlier: its upstream is released already
+        have hne : ((h1.modT t fun x => { x with vchildren := [], ops := [] }).t t).creator ≠ (h0.t t).creator := by
+          simp only [t_modT_self]
+          rw [hnone]
+          exact fun e => h0c e.symm
+        exact hinv2.2 t htS hne u hu
+    · rename_i f hf
+      -- the creator is the original one
+      have hf0 : (h0.t t).creator = some f := by
+        rcases hinv1.1.1 t with e | e
+        · rw [← e]; exact hf
+        · rw [e] at hf; cases hf
+      have hop0 : h1.op f = h0.op f := hinv1.1.2.2 f
+      -- dropping the creator puts `t` among the calls in progress
+      have hs3 : Shrinks (h1.modT t fun x => { x with vchildren := [], ops := [] })
+          ((h1.modT t fun x => { x with vchildren := [], ops := [] }).modT t fun x => { x with creator := none }) := by
+        refine ⟨fun u => ?_, fun u => ?_, fun f => rfl⟩
+        · by_cases hu : u = t
+          · subst hu; right; simp
+          · rw [t_modT_ne _ _ _ _ hu]; exact Or.inl rfl
+        · rw [t_modT_field _ _ _ _ (·.ops) (by intro x; rfl)]; exact Or.inl rfl
+      have hinv3 : InvS h0 (t :: S) ((h1.modT t fun x => { x with vchildren := [], ops := [] }).modT t fun x => { x with creator := none }) := by
+        refine ⟨hinv2.1.trans hs3, fun w hw hne u hu => ?_⟩
+        have hwt : w ≠ t := fun e => hw (e ▸ List.mem_cons_self ..)
+        have hwS : w ∉ S := fun e => hw (List.mem_cons_of_mem _ e)
+        rw [t_modT_ne _ _ _ _ hwt] at hne
+        exact hs3.cleared (hinv2.2 w hwS hne u hu)
+      have htc : Cleared ((h1.modT t fun x => { x with vchildren := [], ops := [] }).modT t fun x => { x with creator := none }) t :=
+        ⟨by simp, by simp⟩
+      -- the fold over the creator's variables
+      have hfold : ∀ (vs : List Nat) (hh : Heap), (∀ v ∈ vs, v ∈ (h0.op f).vars) → InvS h0 (t :: S) hh →
+          InvS h0 (t :: S) (vs.foldl (fun h v => clearGraph fuel h v) hh) ∧
+          Shrinks hh (vs.foldl (fun h v => clearGraph fuel h v) hh) ∧
+          ∀ v ∈ vs, ∀ u, Up h0 v u → Cleared (vs.foldl (fun h v => clearGraph fuel h v) hh) u := by
+        intro vs
+        induction vs with
+        | nil => intro hh _ hi; exact ⟨hi, Shrinks.refl hh, fun v hv => by simp at hv⟩
+        | cons v vs ihv =>
+          intro hh hsub hi
+          simp only [List.foldl_cons]
+          have hvin : v ∈ (h0.op f).vars := hsub v (List.mem_cons_self ..)
+          have hrv : rank v < fuel := by have := hdag t f v hf0 hvin; omega
+          have hSv : ∀ u, Up h0 v u → u ∉ t :: S := by
+            intro u hu hmem
+            rcases List.mem_cons.mp hmem with rfl | hmem
+            · have := Up.rank_le rank hdag hu
+              have := hdag _ f v hf0 hvin
+              omega
+            · exact hS u (Up.step hf0 hvin hu) hmem
+          obtain ⟨hi', hcl⟩ := ih hh v (t :: S) hrv hi hSv
+          obtain ⟨hi'', hsh, hrest⟩ := ihv (clearGraph fuel hh v) (fun w hw => hsub w (List.mem_cons_of_mem _ hw)) hi'
+          refine ⟨hi'', (clearGraph_shrinks fuel hh v).trans hsh, fun w hw u hu => ?_⟩
+          rcases List.mem_cons.mp hw with rfl | hw'
+          · exact hsh.cleared (hcl u hu)
+          · exact hrest w hw' u hu
+      rw [op_modT, op_modT, hop0]
+      obtain ⟨hiF, hshF, hclF⟩ := hfold (h0.op f).vars _ (fun v hv => hv) hinv3
+      have hup : ∀ u, Up h0 t u → Cleared ((h0.op f).vars.foldl (fun h v => clearGraph fuel h v)
+          ((h1.modT t fun x => { x with vchildren := [], ops := [] }).modT t fun x => { x with creator := none })) u := by
+        intro u hu
+        cases hu with
+        | refl => exact hshF.cleared htc
+        | step hc hv hu' =>
+          rw [hf0] at hc
+          cases hc
+          exact hclF _ hv u hu'
+      refine ⟨⟨hiF.1, fun w hw hne u hu => ?_⟩, hup⟩
+      by_cases hwt : w = t
+      · subst hwt; exact hup u hu
+      · exact hiF.2 w (fun hm => by rcases List.mem_cons.mp hm with e | e; exact hwt e; exact hw e) hne u hu
+
+/-- **clearGraph_clears_upstream.**  On an acyclic heap, `clear_graph(t)` — hence every completed
+`backward()` from `t` — leaves `t` and every tensor upstream of it (through any number of ops,
+shared inputs, constants) without a creator and without recorded consumers. -/
+theorem clearGraph_clears_upstream (h : Heap) (rank : Nat → Nat)
+    (hdag : ∀ t f v, (h.t t).creator = some f → v ∈ (h.op f).vars → rank v < rank t)
+    (t : Nat) (fuel : Nat) (hfuel : rank t < fuel) :
+    ∀ u, Up h t u → Cleared (clearGraph fuel h t) u :=
+  (clearGraph_upstream_aux h rank hdag fuel h t [] hfuel
+    ⟨Shrinks.refl h, fun w _ hne => absurd rfl hne⟩ (fun u _ => by simp)).2
+
 /-- **backward_clears_graph.**  A completed `backward` ends with `clear_graph` on the terminal tensor:
 it (and, by the two theorems above, what is upstream of it) has no creator and no consumers. -/
 theorem backward_clears_graph (h : Heap) (L : Nat) (seed : Seed) (h' : Heap)
@@ -189,6 +353,87 @@ theorem backward_clears_graph (h : Heap) (L : Nat) (seed : Seed) (h' : Heap)
         · simp only [Except.ok.injEq] at hok
           rw [← hok, hfuel]
           exact clearGraph_clears_root _ _ _
+
+/-- heaps with the same creators and op records have the same upstream relation -/
+theorem Up.congr {h h' : Heap} (hc : ∀ t, (h'.t t).creator = (h.t t).creator) (ho : ∀ f, h'.op f = h.op f)
+    {t u : Nat} (hu : Up h t u) : Up h' t u := by
+  induction hu with
+  | refl t => exact Up.refl t
+  | step hcr hv _ ih => exact Up.step (by rw [hc]; exact hcr) (by rw [ho]; exact hv) ih
+
+theorem storeGrads_graph_fields (gr : GMap) (h : Heap) :
+    (∀ t, ((storeGrads h gr).t t).creator = (h.t t).creator) ∧ (∀ f, (storeGrads h gr).op f = h.op f) ∧
+    h.next ≤ (storeGrads h gr).next := by
+  refine ⟨?_, ?_, by rw [MG.C12.stored_grads_are_fresh_objects]; omega⟩
+  · unfold storeGrads
+    induction gr generalizing h with
+    | nil => exact fun _ => rfl
+    | cons p ps ih =>
+      intro t
+      simp only [List.foldl_cons]
+      rw [ih, t_modT_field _ _ _ _ (·.creator) (by intro x; rfl)]; rfl
+  · unfold storeGrads
+    induction gr generalizing h with
+    | nil => exact fun _ => rfl
+    | cons p ps ih =>
+      intro f
+      simp only [List.foldl_cons]
+      rw [ih]; rfl
+
+theorem nullFold_graph_fields (ts : List Nat) (h : Heap) :
+    (∀ t, ((ts.foldl (fun h t => h.modT t ({ · with grad := none, viewGrad := none })) h).t t).creator = (h.t t).creator) ∧
+    (∀ f, (ts.foldl (fun h t => h.modT t ({ · with grad := none, viewGrad := none })) h).op f = h.op f) ∧
+    (ts.foldl (fun h t => h.modT t ({ · with grad := none, viewGrad := none })) h).next = h.next := by
+  induction ts generalizing h with
+  | nil => exact ⟨fun _ => rfl, fun _ => rfl, rfl⟩
+  | cons x xs ih =>
+    simp only [List.foldl_cons]
+    obtain ⟨e1, e2, e3⟩ := ih (h.modT x ({ · with grad := none, viewGrad := none }))
+    refine ⟨fun t => ?_, fun f => (e2 f).trans rfl, e3.trans rfl⟩
+    rw [e1, t_modT_field _ _ _ _ (·.creator) (by intro y; rfl)]
+
+/-- a completed `backward` ends with `clear_graph` on a heap that has the creators and op records of
+the heap it started from -/
+theorem backward_ok_form (h : Heap) (L : Nat) (seed : Seed) (h' : Heap) (hok : backward h L seed = .ok h') :
+    ∃ hh, h' = clearGraph hh.fuel hh L ∧ (∀ t, (hh.t t).creator = (h.t t).creator) ∧
+      (∀ f, hh.op f = h.op f) ∧ h.next ≤ hh.next := by
+  unfold backward at hok
+  simp only at hok
+  split at hok
+  · simp only [Except.ok.injEq] at hok
+    exact ⟨h, hok.symm, fun _ => rfl, fun _ => rfl, Nat.le_refl _⟩
+  · split at hok
+    · cases hok
+    · rename_i touched topo hcol
+      split at hok
+      · cases hok
+      · split at hok
+        · cases hok
+        · simp only [Except.ok.injEq] at hok
+          obtain ⟨n1, n2, n3⟩ := nullFold_graph_fields touched h
+          refine ⟨_, hok.symm, fun t => ?_, fun f => ?_, ?_⟩
+          · rw [(storeGrads_graph_fields _ _).1 t, n1]
+          · rw [(storeGrads_graph_fields _ _).2.1 f, n2]
+          · have := (storeGrads_graph_fields
+              (backwardGrads (touched.foldl (fun h t => h.modT t ({ · with grad := none, viewGrad := none })) h) L topo ‹Val›).1
+              (touched.foldl (fun h t => h.modT t ({ · with grad := none, viewGrad := none })) h)).2.2
+            omega
+
+/-- **backward_clears_upstream.**  After a completed `backward()` on an acyclic heap, the terminal
+tensor and *every* tensor upstream of it has no creator and no recorded consumers. -/
+theorem backward_clears_upstream (h : Heap) (L : Nat) (seed : Seed) (h' : Heap) (rank : Nat → Nat)
+    (hdag : ∀ t f v, (h.t t).creator = some f → v ∈ (h.op f).vars → rank v < rank t)
+    (hfuel : rank L < h.fuel) (hok : backward h L seed = .ok h') :
+    ∀ u, Up h L u → Cleared h' u := by
+  obtain ⟨hh, rfl, hcr, hop, hn⟩ := backward_ok_form h L seed h' hok
+  intro u hu
+  apply clearGraph_clears_upstream hh rank _ L hh.fuel _ u (Up.congr hcr hop hu)
+  · intro t f v hc hv
+    rw [hcr] at hc
+    rw [hop] at hv
+    exact hdag t f v hc hv
+  · simp only [Heap.fuel] at hfuel ⊢
+    omega
 
 /-- **cleared_tensor_holds_no_strong_edge.**  The strong references a tensor holds into the graph are
 `_creator` (→ the op → its variables) and `_base`.  Once cleared, the first is gone: the only tensor a
